@@ -364,7 +364,7 @@ Proof.
     + destruct (lookup mid (msgs st0)) as [m|]; [|intro E; inversion E; subst; exact H0].
       destruct (merge_step Hash (cf_limit (cfg st0)) (pm_sm m) slot ty rsp) as [[sm'|]| |]; try discriminate.
       2:{ intro E; inversion E; subst; exact H0. }
-      destruct (is_auth_failure ty); [discriminate|].
+      destruct (is_auth_failure ty && ps_initializing sv)%bool; [discriminate|].
       match goal with |- context [set_msg st0 mid ?x] => set (st1 := set_msg st0 mid x) end.
       assert (H1 : SInv st1) by (eapply SInv_same; [apply same_s_set_msg | exact H0]).
       destruct (lookup (pm_client m) (clients st1)) as [cl|]; [|intro E; inversion E; subst; exact H1].
